@@ -136,9 +136,27 @@ class TLCResult:
         self.coverage = {}
         self._parse()
 
-    def _parse(self):
-        for line in self.out.splitlines():
+    @staticmethod
+    def _joined(lines):
+        """TLC pretty-prints long tuples over several lines: join them again (bracket matching)"""
+        buf = None
+        for line in lines:
             s = line.strip()
+            if buf is not None:
+                buf += " " + s
+                if buf.count("<<") <= buf.count(">>"):
+                    yield buf
+                    buf = None
+                continue
+            if s.startswith("<<") and s.count("<<") > s.count(">>"):
+                buf = s
+                continue
+            yield s
+        if buf is not None:
+            yield buf
+
+    def _parse(self):
+        for s in self._joined(self.out.splitlines()):
             m = re.match(r"(\d+) states generated, (\d+) distinct states found", s)
             if m:
                 self.generated = int(m.group(1))
